@@ -1,251 +1,38 @@
-"""C04 - integrity: wiring of keys, HMAC input and verdict (origins + constants; cryptography itself is trusted).
+"""C04 - integrity: wiring of keys, MAC input and verdict, decided from content flow (cryptography itself is trusted).
 
-Decided (each a necessary condition of the property, for all inputs):
- * key material: short-term key = the password bytes; long-term key = MD5 over exactly
-   username ":" realm ":" password (ordered operands of the string concatenation), one update, finalize; the key
-   derivation touches no ambient state (callee allow-list);
- * validate side: per algorithm the HMAC input is self.data[..offset of the integrity attribute] with the length
-   field rewritten to offset + 24 - 20 (SHA-1) / offset + attr.length + 4 - 20 (SHA-256); the key is
-   make_hmac_key(credentials); the tag compared is the hmac of the attribute decoded through the typed decoder of the
-   matching type (so the 16..=32 / multiple-of-4 limits of C08 apply); the verdict of verify reaches the result on
-   every path (`?`), Ok(algo) only after it; the tag comparison is delegated to hmac's verify_slice (SHA-1, all 20
-   bytes) / verify_truncated_left (SHA-256);
- * build side: the HMAC input is build() with the length field increased by 24 / 36 = 4 + tag length; the tag comes
-   from compute(bytes, make_hmac_key(credentials)); the attribute pushed has the matching type.
-NOT decided: HMAC / MD5 values, tamper evidence itself, any for-all-keys statement (cryptographic).  A hand-written
-tag comparison is outside what these rules can decide and is reported as undecided (fail closed)."""
-import re
-from mir import Origins, strip, const_int, Origin
-from rules.c17 import shape
-from rules.c09 import lin_of, _only_def_is
-from dtable import instrumented_body, resolve_upvars
-import e1
+The abstract interpreter runs in content-tracking mode: byte sequences carry a description of where their bytes come
+from (windows of identified inputs, concatenations, patches of a 16-bit field), copies keep it, hash / MAC objects of
+the external crates accumulate the streams fed to them and comparisons fork on the verdict.  Each clause is decided
+from the return states of the function concerned, whatever the arrangement of its statements, helpers and loops:
+ * key material (make_hmac_key): short-term key = exactly the password bytes; long-term key = MD5 over exactly
+   username ":" realm ":" password, each field whole and in that order; no ambient state (effect classification);
+ * MAC helpers (MessageIntegrity / MessageIntegritySha256 ::verify, ::compute): one MAC of the right algorithm keyed
+   with the whole key over the whole data; verify returns Ok exactly on the path where hmac's comparison of the whole
+   expected tag succeeded (verify_slice; verify_truncated_left for SHA-256), compute returns the whole MAC output;
+ * validate side (validate_integrity, with raw_attribute / make_hmac_key summarised): Ok(algo) only after exactly one
+   successful comparison with the MAC of that algorithm, keyed with make_hmac_key(credentials), over
+   self.data[..off] with bytes 2..4 replaced by the big-endian value off + 4 + attribute length - 20, where the bytes at
+   off were read as an attribute header of the type that was looked up; the tag is the whole value of the attribute
+   looked up, 20 bytes (SHA-1) / 16..=32 bytes in steps of 4 (SHA-256); SHA-256 is used when present, else SHA-1;
+   MissingAttribute exactly when neither is present;
+ * build side (add_message_integrity): one MAC of the algorithm asked for, keyed with make_hmac_key(credentials), over
+   build() with bytes 2..4 replaced by their value + 24 / 36 = 4 + tag length; the attribute pushed is (type, tag
+   length, the whole MAC just computed) and the type recorded for it agrees; a refused call pushes nothing.
+NOT decided: HMAC / MD5 values, tamper evidence itself, any for-all-keys statement (cryptographic), that the attribute
+found by the scan and the one returned by the lookup are the same occurrence when a type occurs twice (first-match of
+both is C02 / C10)."""
+from rules import content_e2 as CE
 
 THOROUGH_CONFIGS = ("release", "arbitrary")
 LEVEL = "other"
-M_ = "stun_types::message::"
-KEYFN = M_ + "MessageIntegrityCredentials::make_hmac_key"
-VALIDATE = M_ + "Message::<'a>::validate_integrity"
-MB = M_ + "MessageBuilder::<'a>::"
-MI = "stun_types::attribute::integrity::MessageIntegrity"
-M2 = "stun_types::attribute::integrity::MessageIntegritySha256"
-
-KEY_ALLOWED = re.compile(r"^<std::string::String as std::(clone::Clone|ops::Add<&str>|ops::Deref|convert::Into<std::vec::Vec<u8>>)>::|"
-                         r"^<.*md5::Md5Core.* as (sha2|md5|digest)::Digest>::(new|update(::<.*>)?|finalize)$|^<.*GenericArray<.*> as std::ops::Deref>::deref$|"
-                         r"^std::slice::<impl \[u8\]>::to_vec$|^std::string::String::(into_bytes|as_bytes)$|^<(sha2::digest::)?generic_array::|^drop_glue<")
-
-
-def flatten_concat(sh, out):
-    """ordered operands of a String + &str + ... chain"""
-    if isinstance(sh, tuple) and sh[0] == "call" and sh[1].endswith("<std::string::String as std::ops::Add<&str>>::add"):
-        flatten_concat(sh[2][0], out)
-        flatten_concat(sh[2][1], out)
-        return
-    # peel clones / derefs
-    while isinstance(sh, tuple) and sh[0] == "call" and re.search(r"(Clone>::clone|Deref>::deref|as_str)$", sh[1]):
-        sh = sh[2][0]
-    out.append(sh)
-
-
-def leaf_name(sh):
-    if isinstance(sh, tuple) and sh[0] == "field" and isinstance(sh[2], str):
-        return sh[2]
-    if isinstance(sh, tuple) and sh[0] == "const":
-        return "const:%s" % (sh[1],)
-    return repr(sh)[:60]
 
 
 def run(prog, chk, tier):
     chk.explanation = __doc__.split("\n\n", 1)[1]
     chk.trusted += ["hmac / sha1 / sha2 / md5 crates compute what their names say; verify_slice / verify_truncated_left compare every byte of the tag",
+                    "external-callee model table (copies preserve content; digest objects accumulate what update() is given)",
                     "rustc MIR construction"]
-    key_material(prog, chk)
-    validate_side(prog, chk)
-    verify_fns(prog, chk)
-    build_side(prog, chk)
-
-
-def key_material(prog, chk):
-    b = prog.bodies.get(KEYFN)
-    if b is None:
-        chk.fail("key-material", "make_hmac_key not found")
-        return
-    og = Origins(prog, b)
-    names = [og.callee_name(t) for _, t in b.calls()]
-    bad = [n for n in names if not KEY_ALLOWED.search(n)]
-    chk.ob("key-material", "make_hmac_key calls only string/vector copies, concatenation and MD5 (no ambient state)", not bad,
-           where=b.loc(), detail="other callees: %s" % bad[:3], how="callee allow-list over %d call sites" % len(names))
-    statics = [s for _, _, s in b.iter_stmts() if "static" in repr(s)]
-    chk.ob("key-material", "make_hmac_key references no static", not statics, how="operand scan")
-    upd = [(bi, t) for bi, t in b.calls() if re.search(r"Md5Core.* as (sha2|md5|digest)::Digest>::update", og.callee_name(t))]
-    ok = len(upd) == 1
-    ops = []
-    if ok:
-        flatten_concat(shape(og.operand(upd[0][1]["args"][1])), ops)
-        got = [leaf_name(x) for x in ops]
-        ok = len(got) == 5 and got[0] == "username" and got[2] == "realm" and got[4] == "password" and got[1].startswith("const:") and got[1] == got[3] and re.search(r"3a|':'|:", got[1]) is not None
-        chk.ob("key-material", "long-term key = MD5(username ':' realm ':' password)", ok, detail="operands: %s" % got, how="ordered operands of the concatenation")
-        # the separator constant is the single byte ':'
-        seps = [x for x in ops if isinstance(x, tuple) and x[0] == "const"]
-        okc = all(str(s[1]) in (":", "0x3a") or "':'" in str(s[1]) or str(s[1]).endswith(":") for s in seps)
-        chk.ob("key-material", "the separators are the one-byte string \":\"", okc and len(seps) == 2, detail=repr(seps), how="constant")
-    else:
-        chk.fail("key-material", "exactly one Md5 update", detail="%d update call(s)" % len(upd))
-    # short-term arm: password bytes
-    intos = [(bi, t) for bi, t in b.calls() if og.callee_name(t).endswith("Into<std::vec::Vec<u8>>>::into")]
-    ok = len(intos) == 1
-    if ok:
-        sh = shape(og.operand(intos[0][1]["args"][0]))
-        while isinstance(sh, tuple) and sh[0] == "call" and sh[1].endswith("Clone>::clone"):
-            sh = sh[2][0]
-        ok = leaf_name(sh) == "password" and "ShortTerm" in repr(sh)
-    chk.ob("key-material", "short-term key = the password bytes", ok, how="origin")
-
-
-def validate_side(prog, chk):
-    b, ups = instrumented_body(prog, VALIDATE)
-    og = Origins(prog, b)
-    rw = lambda o: shape(resolve_upvars(o, ups) if ups else o)
-    calls = [(bi, t, og.callee_name(t)) for bi, t in b.calls()]
-    for algo, vfn, tyname, extra in (("Sha1", MI + "::verify", MI, ({"off": 1}, 4)), ("Sha256", M2 + "::verify", M2, ({"off": 1, "attrlen": 1}, -16))):
-        vs = [(bi, t) for bi, t, n in calls if n == vfn]
-        if not chk.ob("validate-side", "%s: exactly one call of %s::verify" % (algo, tyname.rsplit("::", 1)[1]), len(vs) == 1, detail="%d call(s)" % len(vs)):
-            continue
-        vb, vt = vs[0]
-        data, key, tag = [rw(og.operand(a)) for a in vt["args"]]
-        # key
-        ks = repr(key)
-        okk = "make_hmac_key" in ks and ("('param', 2)" in ks or "credentials" in ks or "upvar" in ks)
-        chk.ob("validate-side", "%s: key = make_hmac_key(credentials)" % algo, okk, detail=ks[:200], how="origin")
-        # data region: to_vec(&self.data[..data_offset]) of the local handed to verify
-        ds = repr(data)
-        okd = re.search(r"to_vec", ds) is not None and re.search(r"RangeTo<usize>> for \[u8\]>::index", ds) is not None and "'data'" in ds
-        chk.ob("validate-side", "%s: HMAC input = self.data[..offset of the attribute] (copied)" % algo, okd, detail=ds[:240], how="origin")
-        # the length rewrite that dominates this verify call
-        wr = [(bi, t) for bi, t, n in calls if n.endswith("ByteOrder>::write_u16") and b.dominates(bi, vb)]
-        wr = [w for w in wr if not any(b.dominates(w[0], o[0]) and o is not w for o in wr)] or wr
-        okw = False
-        lf = None
-        if wr:
-            val = rw(og.operand(wr[-1][1]["args"][1]))
-            lf = lin_of(val, [lambda s: "off" if isinstance(s, tuple) and s[0] in ("multi", "partial") and b.local_ty(s[1])["s"] == "usize" else None,
-                              lambda s: "attrlen" if isinstance(s, tuple) and s[0] == "call" and re.search(r"Attribute>::length$", s[1]) else None])
-            okw = lf == extra
-        chk.ob("validate-side", "%s: length field rewritten to %s" % (algo, "offset + 24 - 20" if algo == "Sha1" else "offset + attr.length + 4 - 20"), okw,
-               detail="value %r" % (lf,), how="origin (linear form)")
-        # the tag: element 1 of the (algorithm, hmac) pair chosen below (attribute-choice rule checks the pairs)
-        ts = repr(tag)
-        okt = re.search(r"\('field', \('multi', \d+, 2\), '1'\)", ts) is not None
-        chk.ob("validate-side", "%s: the tag compared is the hmac selected together with the algorithm" % algo, okt, detail=ts[:300], how="origin")
-        # verdict discipline: result goes through `?`; Ok(algo) only on the Continue arm
-        from rules.c01 import _ok_arm_dominates
-        oks = [bi for bi, si, s in b.iter_stmts() if s["k"] == "assign" and s["rv"]["k"] == "aggregate" and s["rv"].get("adt") == "std::result::Result"
-               and s["rv"].get("vname") == "Ok" and "IntegrityAlgorithm" in b.ty(s["pl"]["ty"])["s"] and b.dominates(vb, bi)]
-        okv = bool(oks) and all(_ok_arm_dominates(prog, b, og, vb, bi) for bi in oks)
-        chk.ob("validate-side", "%s: Ok(algo) is returned only after verify returned Ok" % algo, okv, how="dominance through Try::branch")
-    # no Ok(algo) return that is not dominated by some verify call
-    vblocks = [bi for bi, t, n in calls if n in (MI + "::verify", M2 + "::verify")]
-    oks = [bi for bi, si, s in b.iter_stmts() if s["k"] == "assign" and s["rv"]["k"] == "aggregate" and s["rv"].get("adt") == "std::result::Result"
-           and s["rv"].get("vname") == "Ok" and "IntegrityAlgorithm" in b.ty(s["pl"]["ty"])["s"]]
-    chk.ob("validate-side", "every Ok(algorithm) return is dominated by a verify call", bool(oks) and all(any(b.dominates(v, o) for v in vblocks) for o in oks),
-           how="dominance")
-    # choice of attribute: (Sha256, hmac of the typed decode of the SHA-256 lookup), (Sha1, ... of the SHA-1 lookup)
-    look = {}
-    for bi, t, n in calls:
-        if n.endswith("::raw_attribute"):
-            c = const_int(_peel(og.operand(t["args"][1])))
-            look[c] = t["dest"]["l"]
-    chk.ob("attribute-choice", "lookups are raw_attribute(MESSAGE-INTEGRITY) and raw_attribute(MESSAGE-INTEGRITY-SHA256)", set(look) == {0x0008, 0x001C},
-           detail=repr(sorted(look)), how="constants")
-    pairs = []
-    for bi, si, s_ in b.iter_stmts():
-        if s_["k"] == "assign" and s_["rv"]["k"] == "aggregate" and s_["rv"].get("agg") == "tuple" and len(s_["rv"]["ops"]) == 2 \
-                and "IntegrityAlgorithm" in b.ty(s_["pl"]["ty"])["s"]:
-            a0 = shape(og.operand(s_["rv"]["ops"][0]))
-            a1 = repr(rw(og.operand(s_["rv"]["ops"][1])))
-            variant = a0[1].rsplit("::", 1)[1] if isinstance(a0, tuple) and a0[0] == "agg" else repr(a0)
-            dec = "M2" if "MessageIntegritySha256 as std::convert::TryFrom" in a1.replace("<'a>", "") else ("MI" if "MessageIntegrity as std::convert::TryFrom" in a1.replace("<'a>", "") else "?")
-            viahmac = "::hmac'" in a1
-            pairs.append((variant, dec, viahmac))
-    want = {("Sha256", "M2", True), ("Sha1", "MI", True)}
-    chk.ob("attribute-choice", "SHA-256 is checked against the typed decode of MESSAGE-INTEGRITY-SHA256, SHA-1 against MESSAGE-INTEGRITY", set(pairs) == want,
-           detail=repr(pairs), how="aggregate sites + origin")
-    errs = [s_ for bi, si, s_ in b.iter_stmts() if s_["k"] == "assign" and s_["rv"]["k"] == "aggregate" and s_["rv"].get("vname") == "MissingAttribute"]
-    chk.ob("attribute-choice", "a message without integrity attribute reports MissingAttribute", len(errs) >= 1, how="aggregate site")
-    # the scan guards each verify by the algorithm selected (L3 premise of C01: same type constants)
-    from rules.c01 import Lemmas
-    lem = Lemmas(prog, chk, None)
-    try:
-        ok3, d3 = lem._scan_types()
-    except Exception as e:
-        ok3, d3 = False, "%s" % e
-    chk.ob("attribute-choice", "the scan for the attribute position compares the types that were looked up", ok3, detail=d3, how="constants")
-
-
-def _peel(o):
-    from rules.c01 import strip_field
-    return strip_field(o)
-
-
-def verify_fns(prog, chk):
-    for tyname, cmpfn in ((MI, "verify_slice"), (M2, "verify_truncated_left")):
-        b, ups = instrumented_body(prog, tyname + "::verify")
-        og = Origins(prog, b)
-        names = [og.callee_name(t) for _, t in b.calls()]
-        cmpc = [(bi, t) for bi, t in b.calls() if re.search(r"as hmac::Mac>::%s$" % cmpfn, og.callee_name(t))]
-        ok = len(cmpc) == 1
-        if ok:
-            tag = repr(shape(resolve_upvars(og.operand(cmpc[0][1]["args"][1]), ups) if ups else og.operand(cmpc[0][1]["args"][1])))
-            ok = "('param', 3)" in tag or "expected" in tag
-        chk.ob("tag-comparison", "%s::verify compares the whole expected tag with hmac::Mac::%s" % (tyname.rsplit("::", 1)[1], cmpfn), ok,
-               where=b.loc(), detail="calls: %s" % [n for n in names if "hmac" in n or "Mac" in n][:4], how="callee identity + origin")
-        # outcome: Err(IntegrityCheckFailed) on mismatch, the result of the comparison is what is returned
-        okr = False
-        ret = ""
-        for d in b.defs().get(0, []):
-            if d[0] == "call":
-                nm = og.callee_name(d[3])
-                if nm.startswith("std::result::Result::") and "::map_err::<" in nm:
-                    ret = repr(shape(og.operand(d[3]["args"][0])))
-                    if cmpfn in ret:
-                        okr = True
-        chk.ob("tag-comparison", "%s::verify returns the comparison's verdict" % tyname.rsplit("::", 1)[1], okr, detail=ret[:160], how="origin")
-        ups_ = [n for n in names if re.search(r"as hmac::Mac>::update$", n)]
-        news = [n for n in names if re.search(r"new_from_slice$", n)]
-        chk.ob("tag-comparison", "%s::verify keys the MAC once and feeds the data once" % tyname.rsplit("::", 1)[1], len(ups_) == 1 and len(news) == 1, how="call sites")
-
-
-def build_side(prog, chk):
-    b, ups = instrumented_body(prog, MB + "integrity_bytes_from_message")
-    og = Origins(prog, b)
-    wr = [(bi, t) for bi, t in b.calls() if og.callee_name(t).endswith("ByteOrder>::write_u16")]
-    ok = len(wr) == 1
-    lf = None
-    if ok:
-        is_len_field = lambda s: isinstance(s, tuple) and s[0] == "call" and re.search(r"Index(Mut)?<std::ops::Range<usize>>", s[1]) and s[2][1][0] == "agg" and s[2][1][2] == (("const", 2), ("const", 4))
-        val = shape(og.operand(wr[0][1]["args"][1]))
-        lf = lin_of(val, [lambda s: "old" if isinstance(s, tuple) and s[0] == "call" and s[1].endswith("ByteOrder>::read_u16") and is_len_field(s[2][0]) else None,
-                          lambda s: "extra" if s == ("param", 2) else None])
-        ret = repr(shape(og.local(0)))
-        ok = lf == ({"old": 1, "extra": 1}, 0) and re.search(r"MessageBuilder:+build'", ret) is not None and is_len_field(shape(og.operand(wr[0][1]["args"][0])))
-    chk.ob("build-side", "integrity_bytes_from_message(extra) = build() with the length field increased by extra", ok, detail="value %r" % (lf,), how="origin (linear form)")
-    b, ups = instrumented_body(prog, MB + "add_message_integrity_unchecked")
-    og = Origins(prog, b)
-    calls = [(bi, t, og.callee_name(t)) for bi, t in b.calls()]
-    for algo, tyname, extra, tlen in (("Sha1", MI, 24, 20), ("Sha256", M2, 36, 32)):
-        comp = [(bi, t) for bi, t, n in calls if n == tyname + "::compute"]
-        if not chk.ob("build-side", "%s: exactly one compute call" % algo, len(comp) == 1):
-            continue
-        data, key = [shape(og.operand(a)) for a in comp[0][1]["args"]]
-        ds, ks = repr(data), repr(key)
-        m = re.search(r"integrity_bytes_from_message', \(\('param', 1\), \('const', (\d+)\)", ds)
-        chk.ob("build-side", "%s: HMAC input = integrity_bytes_from_message(%d) and %d = 4 + tag length %d" % (algo, extra, extra, tlen),
-               m is not None and int(m.group(1)) == extra == 4 + tlen, detail=ds[:200], how="origin + constant")
-        chk.ob("build-side", "%s: key = make_hmac_key(credentials)" % algo, "make_hmac_key" in ks and "('param', 2)" in ks, detail=ks[:160], how="origin")
-    # the tag length constants agree with the decoders (C08 fixed-length / range)
-    lb = prog.bodies.get("<%s as stun_types::attribute::Attribute>::length" % MI)
-    chk.ob("build-side", "MESSAGE-INTEGRITY length() == 20", lb is not None and const_int(Origins(prog, lb).local(0)) == 20, how="constant")
-    # pushes: the type recorded next to each tag
-    from rules.c01 import sub_check
-    ok, bad = sub_check(prog, "c11", rules={"sealing-push-pairing"})
-    chk.ob("build-side", "the sealing attribute pushed and the type recorded for it agree (C11 pairing rule)", ok, detail=repr(bad), how="C11 rule instances re-evaluated")
+    CE.key_material(prog, chk)
+    CE.validate_side(prog, chk)
+    CE.mac_helpers(prog, chk)
+    CE.build_side(prog, chk)
